@@ -595,9 +595,10 @@ class Buffer(gpp.UGenParameter, gpp.NodeParameter):
         if self._bufnum is None:
             _logger.warning('Buffer has already been freed')
             return
+        # Evaluate the user's function first: if it raises nothing has changed.
+        msg = ['/b_free', self._bufnum, fn.value(completion_msg, self)]
         self._uncache()
         self._server._buffer_allocator.free(self._bufnum)
-        msg = ['/b_free', self._bufnum, fn.value(completion_msg, self)]
         self._bufnum = self._frames = self._channels = None
         self._sample_rate = self._path = self._start_frame = None
         self._server.addr.send_msg(*msg)
